@@ -8,6 +8,7 @@ structure WTState where
   r : RConn := default
   hasReader : Bool := false
   defBuf : Nat := 4096
+  prepared : List (String × Msg) := []     -- prepared messages kept for later (a prepared frame depends on the message only)
 
 def errStr : Option RErr → String
   | none => "-"
@@ -50,6 +51,15 @@ def wtStep (s : WTState) (toks : List String) : WTState × String :=
       | "stream" => writeStream s.w k (splitBy data (parseInts chunks))
       | _ => writeReadFrom s.w k (splitBy data (parseInts chunks))
     ({ s with w := w' }, "wire " ++ hexOf (w'.out.drop before))
+  | ["prep", slot, kind, hex] =>
+    ({ s with prepared := (slot, ⟨kindOf kind, unhex hex⟩) :: s.prepared.filter (·.1 ≠ slot) }, "ok")
+  | ["wprep", slot] =>
+    match s.prepared.find? (·.1 = slot) with
+    | none => (s, "noprep")
+    | some (_, m) =>
+      let before := s.w.out.length
+      let w' := writePrepared s.w s.defBuf m
+      ({ s with w := w' }, "wire " ++ hexOf (w'.out.drop before))
   | "rnew" :: limit :: tl :: cf :: hex :: _ =>
     -- fragment sizes and the bufio size are the implementation's business
     -- t<k>: one read error after k bytes (what the stream would deliver afterwards is never looked at:
